@@ -136,4 +136,69 @@ Proof.
   destruct H as (-> & _ & _ & _ & _ & F). split; auto. rewrite F, Ht. reflexivity.
 Qed.
 
+(** *** for_each_concurrent *)
+Theorem fec_poll_quiet a t w kb :
+  up_quiet (fe_up a) ->
+  quiet_map KFut (tasks (fe_q a)) -> noinj w -> get_blk w (blk (fe_q a)) = Some kb -> fub_len (fe_q a) <> 0 ->
+  let '(a', r, w') := fec_poll P a t w in
+  r = RetPending
+  /\ twakes (log w') = twakes (log w) + (if Nat.ltb (length (bqueue kb)) (pB P) then 0 else 1).
+Proof.
+  intros Hu Hqm Hn Hk Hlen. unfold fec_poll.
+  assert (Hfuel : exists n, fec_fuel a = S n).
+  { unfold fec_fuel. destruct (fe_up a); [exists (2 * length (us_steps u) + fub_len (fe_q a) + 1)|exists (fub_len (fe_q a) + 1)]; lia. }
+  destruct Hfuel as [n ->]. cbn [fec_loop].
+  assert (Hpull : (if Nat.ltb (fub_len (fe_q a)) (fub_cap (fe_q a)) then
+            match fe_up a with
+            | Some u =>
+                let '(u, r, w) := up_poll false u t w in
+                match r with
+                | UPItem c =>
+                    match fub_try_push (fe_q a) c w with
+                    | (PushOk f, w) => ({| fe_up := Some u; fe_q := f |}, true, w)
+                    | (_, w) => ({| fe_up := Some u; fe_q := fe_q a |}, true, emit EStuck w)
+                    end
+                | UPEnd => ({| fe_up := None; fe_q := fe_q a |}, false, emit EUpDrop w)
+                | _ => ({| fe_up := Some u; fe_q := fe_q a |}, false, w)
+                end
+            | None => (a, false, w)
+            end
+          else (a, false, w))
+          = (a, false, w) \/ exists w1, (if Nat.ltb (fub_len (fe_q a)) (fub_cap (fe_q a)) then
+            match fe_up a with
+            | Some u =>
+                let '(u, r, w) := up_poll false u t w in
+                match r with
+                | UPItem c =>
+                    match fub_try_push (fe_q a) c w with
+                    | (PushOk f, w) => ({| fe_up := Some u; fe_q := f |}, true, w)
+                    | (_, w) => ({| fe_up := Some u; fe_q := fe_q a |}, true, emit EStuck w)
+                    end
+                | UPEnd => ({| fe_up := None; fe_q := fe_q a |}, false, emit EUpDrop w)
+                | _ => ({| fe_up := Some u; fe_q := fe_q a |}, false, w)
+                end
+            | None => (a, false, w)
+            end
+          else (a, false, w)) = (a, false, w1) /\ blocks w1 = blocks w /\ winj w1 = winj w /\ twakes (log w1) = twakes (log w)).
+  { destruct (Nat.ltb (fub_len (fe_q a)) (fub_cap (fe_q a))); [|left; reflexivity].
+    destruct (fe_up a) as [u|] eqn:E; [|left; reflexivity].
+    destruct Hu as [He Hs]. unfold up_poll. rewrite He, Hs. right.
+    exists (emit (EUpPoll UAPend) w). splits; auto. destruct a; simpl in *; subst; reflexivity. }
+  assert (Hgen : forall w1, blocks w1 = blocks w -> winj w1 = winj w -> twakes (log w1) = twakes (log w) ->
+            let '(f, sp, w2) := fub_poll_next P KFut (fe_q a) t w1 in
+            sp = SPending /\ twakes (log w2) = twakes (log w) + (if Nat.ltb (length (bqueue kb)) (pB P) then 0 else 1)).
+  { intros w1 Hb Hi Ht.
+    assert (Hn1 : noinj w1) by (unfold noinj in *; congruence).
+    assert (Hk1 : get_blk w1 (blk (fe_q a)) = Some kb) by (unfold get_blk in *; rewrite Hb; exact Hk).
+    pose proof (@poll_quiet P KFut (fe_q a) t w1 kb Hqm Hn1 Hk1 Hlen) as H.
+    unfold fub_poll_next, poll_inner.
+    destruct (poll_inner_no_remove P KFut (fe_q a) t w1) as [[f' pr] w'].
+    destruct H as (-> & _ & _ & _ & _ & F & _). split; auto. rewrite F, Ht. reflexivity. }
+  destruct Hpull as [-> | (w1 & -> & Hb & Hi & Ht)].
+  - specialize (Hgen w eq_refl eq_refl eq_refl).
+    destruct (fub_poll_next P KFut (fe_q a) t w) as [[f sp] w2]. destruct Hgen as [-> Ht2]. split; auto.
+  - specialize (Hgen w1 Hb Hi Ht).
+    destruct (fub_poll_next P KFut (fe_q a) t w1) as [[f sp] w2]. destruct Hgen as [-> Ht2]. split; auto.
+Qed.
+
 End WithParams.
